@@ -146,7 +146,7 @@ def _strategy(draw):
         if variant is not None and rd["resname"] == variant["resname"]:
             continue      # a resname-keyed build entry is ambiguous when two different residues share the name
         natoms = len(rd["atoms"]) + (1 if rd["vs"] else 0)
-        if natoms >= 2 and rd["vs"] is None and draw(st.integers(0, 3)) == 0:
+        if natoms >= 1 and rd["vs"] is None and draw(st.integers(0, 3)) == 0:
             pts = []
             for k in range(natoms):
                 pts.append([round(0.2 * k + draw(st.integers(-5, 5)) / 100.0, 3), round(draw(st.integers(-20, 20)) / 100.0, 3),
